@@ -290,14 +290,18 @@ func (self *BinaryConv) unmarshalList(ctx context.Context, resp http.ResponseSet
 		start := p.Read
 		// parse Value repeated
 		for p.Read < start+len {
-			self.unmarshalSingular(ctx, resp, p, out, fd.Elem())
+			if err := self.unmarshalSingular(ctx, resp, p, out, fd.Elem()); err != nil {
+				return err
+			}
 			if p.Read != start && p.Read != start+len {
 				*out = json.EncodeArrayComma(*out)
 			}
 		}
 	} else {
 		// unpackedList(format)：[Tag][Length][Value] [Tag][Length][Value]....
-		self.unmarshalSingular(ctx, resp, p, out, fd.Elem())
+		if err := self.unmarshalSingular(ctx, resp, p, out, fd.Elem()); err != nil {
+			return err
+		}
 		for p.Read < len(p.Buf) {
 			elementFieldNumber, _, tagLen, err := p.ConsumeTagWithoutMove()
 
@@ -310,7 +314,9 @@ func (self *BinaryConv) unmarshalList(ctx context.Context, resp http.ResponseSet
 			}
 			*out = json.EncodeArrayComma(*out)
 			p.Read += tagLen
-			self.unmarshalSingular(ctx, resp, p, out, fd.Elem())
+			if err := self.unmarshalSingular(ctx, resp, p, out, fd.Elem()); err != nil {
+				return err
+			}
 		}
 	}
 
@@ -340,8 +346,8 @@ func (self *BinaryConv) unmarshalMap(ctx context.Context, resp http.ResponseSett
 	if isIntKey {
 		*out = append(*out, '"')
 	}
-	if self.unmarshalSingular(ctx, resp, p, out, mapKeyDesc) != nil {
-		return wrapError(meta.ErrRead, "parse MapKey Value error", err)
+	if e := self.unmarshalSingular(ctx, resp, p, out, mapKeyDesc); e != nil {
+		return unwrapError("parse MapKey Value error", e)
 	}
 	if isIntKey {
 		*out = append(*out, '"')
@@ -352,8 +358,8 @@ func (self *BinaryConv) unmarshalMap(ctx context.Context, resp http.ResponseSett
 		return wrapError(meta.ErrRead, "parse MapValue Tag error", err)
 	}
 	mapValueDesc := fd.Elem()
-	if self.unmarshalSingular(ctx, resp, p, out, mapValueDesc) != nil {
-		return wrapError(meta.ErrRead, "parse MapValue Value error", err)
+	if e := self.unmarshalSingular(ctx, resp, p, out, mapValueDesc); e != nil {
+		return unwrapError("parse MapValue Value error", e)
 	}
 
 	// parse the remaining k-v pairs
@@ -381,8 +387,8 @@ func (self *BinaryConv) unmarshalMap(ctx context.Context, resp http.ResponseSett
 		if isIntKey {
 			*out = append(*out, '"')
 		}
-		if self.unmarshalSingular(ctx, resp, p, out, mapKeyDesc) != nil {
-			return wrapError(meta.ErrRead, "parse MapKey Value error", err)
+		if e := self.unmarshalSingular(ctx, resp, p, out, mapKeyDesc); e != nil {
+			return unwrapError("parse MapKey Value error", e)
 		}
 		if isIntKey {
 			*out = append(*out, '"')
@@ -392,8 +398,8 @@ func (self *BinaryConv) unmarshalMap(ctx context.Context, resp http.ResponseSett
 		if valueErr != nil {
 			return wrapError(meta.ErrRead, "parse MapValue Tag error", err)
 		}
-		if self.unmarshalSingular(ctx, resp, p, out, mapValueDesc) != nil {
-			return wrapError(meta.ErrRead, "parse MapValue Value error", err)
+		if e := self.unmarshalSingular(ctx, resp, p, out, mapValueDesc); e != nil {
+			return unwrapError("parse MapValue Value error", e)
 		}
 	}
 
